@@ -2,7 +2,7 @@
 # tools/try_seed.sh <patch.diff> <tier> <ID> [<ID>...]
 # Applies a seeded change to /repo, runs the given checks, and ALWAYS restores /repo.
 set -u
-patch="$1"; tier="$2"; shift 2
+patch="$(realpath "$1")"; tier="$2"; shift 2
 cd /verif
 if ! git -C /repo diff --quiet; then echo "/repo has uncommitted changes: refusing"; exit 3; fi
 git -C /repo apply "$patch" || { echo "patch does not apply"; exit 3; }
